@@ -196,6 +196,30 @@ theorem cpu_reading_in_range (prev cur : Int) (hp : 0 ≤ prev ∧ prev ≤ 1000
   rw [cpuEma_eq_div prev cur hp.1 hc.1]
   constructor <;> omega
 
+/-- **The reading after ANY trace of samples stays in [0, 1000]** (induction over the sampler's ticks). -/
+theorem cpu_trace_in_range (curs : List Int) (start : Int) (hs : 0 ≤ start ∧ start ≤ 1000)
+    (hc : ∀ c ∈ curs, 0 ≤ c ∧ c ≤ 1000) : 0 ≤ cpuTrace start curs ∧ cpuTrace start curs ≤ 1000 := by
+  induction curs generalizing start with
+  | nil => simpa [cpuTrace] using hs
+  | cons c cs ih =>
+    have h1 := cpu_reading_in_range start c hs (hc c (by simp))
+    have := ih (cpuEma start c) h1 (fun x hx => hc x (by simp [hx]))
+    simpa [cpuTrace] using this
+
+/-- the window the harness monitor `samplerStepOk` checks on the REAL sampler goroutine: with a sample in 0 … 1000 the new
+reading lies between the readings the samples 0 and 1000 give. -/
+theorem cpu_step_window (prev cur : Int) (hp : 0 ≤ prev) (hc : 0 ≤ cur ∧ cur ≤ 1000) :
+    cpuEma prev 0 ≤ cpuEma prev cur ∧ cpuEma prev cur ≤ cpuEma prev 1000 := by
+  rw [cpuEma_eq_div prev cur hp hc.1, cpuEma_eq_div prev 0 hp (by omega), cpuEma_eq_div prev 1000 hp (by omega)]
+  constructor <;> omega
+
+/-- the monitor never fires on a step of the model. -/
+theorem sampler_monitor_sound (prev cur : Int) (hp : 0 ≤ prev) (hc : 0 ≤ cur ∧ cur ≤ 1000) :
+    samplerStepOk prev (cpuEma prev cur) = true := by
+  have := cpu_step_window prev cur hp hc
+  simp only [samplerStepOk, Bool.and_eq_true, decide_eq_true_eq]
+  omega
+
 /-! ### the call sites, one request -/
 
 /-- **HTTP: an admitted request is resolved exactly once, after its handler, for every outcome** — any status, a body,
@@ -226,6 +250,22 @@ theorem rpc_admitted_resolved_exactly_once (dl pn : Bool) :
 
 theorem rpc_refused (dl pn : Bool) :
     rpcServe false dl pn = { asked := 1, ran := false, early := 0, res := [], status := 8, stat := ⟨1, 0, 1⟩ } := rfl
+
+/-- **Every way a handler can end** (return, panic with a value, panic with an error value — http.ErrAbortHandler,
+context.DeadlineExceeded itself, the PanicNilError of panic(nil) —, runtime.Goexit): the admitted request is resolved
+exactly once; after any abnormal end the gRPC wrapper resolves by Pass (its named result is still nil), the HTTP wrapper
+by the last status recorded. -/
+theorem admitted_resolved_exactly_once_every_end (e : End) (dl : Bool) (o : HttpOutcome) :
+    (rpcServe true dl e.abnormal).res.length = 1
+    ∧ (httpServe false true { o with panics := e.abnormal }).res.length = 1
+    ∧ (e ≠ .returns → (rpcServe true dl e.abnormal).res = [Res.pass])
+    ∧ (httpServe false true { o with panics := e.abnormal }).res = (httpServe false true o).res := by
+  refine ⟨?_, ?_, ?_, ?_⟩
+  · cases e <;> cases dl <;> decide
+  · by_cases h : o.lastCode = 503 <;> simp [httpServe, httpFails, statusServiceUnavailable, HttpOutcome.lastCode] at * <;> simp [h]
+  · intro hne
+    cases e <;> cases dl <;> first | contradiction | decide
+  · simp [httpServe, httpFails, HttpOutcome.lastCode, HttpOutcome.wire]
 
 /-! ### the server: call site → wrapper → shedder, every history -/
 
@@ -345,6 +385,43 @@ theorem site_idle_server_admits (st : St) (h0 : st.sh.flying = 0) (ops : List SO
     rw [hc] at hs
     exact ⟨hs.2.1, by omega⟩
 
+/-! ### every configuration of the public API, end to end -/
+
+/-- **C02 for EVERY configuration of the public API.**  For every value of the package flag (`Disable()` called or not)
+and EVERY option list given to `NewAdaptiveShedder` (any options, any order, repeated, none) whose resulting bucket
+count and bucket duration are at least 1: a disabled constructor yields a shedder that admits whatever happens; an
+enabled one yields a shedder for which, after every history of Allow / Pass / Fail events, a shed is justified
+(clause 1) and an overloaded, over-capacity state is shed (clause 2) — the estimate being the one of the configured
+window `applyOpts opts`. -/
+theorem every_configuration_meets_spec (enabled : Bool) (opts : List Opt) (t0 : Nat)
+    (hb : 1 ≤ (applyOpts opts).buckets) (hw : 1 ≤ (applyOpts opts).window / (applyOpts opts).buckets) (ht : 0 < t0)
+    (ops : List Op) (cpuOver : Bool) (cpu : Int) :
+    match newShedder enabled opts t0 with
+    | .nop => enabled = false ∧ ∀ now, (AnyShedder.nop.allow now cpuOver cpu).2 = .admitted
+    | .adaptive sh0 =>
+      enabled = true ∧
+      let o := applyOpts opts
+      let wc : Spec.WinCfg := ⟨o.buckets, o.window / o.buckets, t0, sh0.windowScale⟩
+      let r := runH ⟨t0, sh0⟩ { now := t0 } ops
+      ((r.1.sh.allow r.1.now cpuOver cpu).2 = .overloaded → Spec.ShedJustified wc r.2 cpuOver)
+      ∧ (Spec.MustShed wc r.2 cpuOver → (r.1.sh.allow r.1.now cpuOver cpu).2 = .overloaded) := by
+  cases enabled with
+  | false => exact ⟨rfl, fun _ => rfl⟩
+  | true =>
+    simp only [newShedder]
+    exact ⟨trivial, allow_meets_spec _ _ _ t0 hb hw ht ops cpuOver cpu⟩
+
+/-- the same through a ShedderGroup: the shedder `GetShedder(key)` hands out at the first use of a key, and at every
+later use whatever the flag is then, is `NewAdaptiveShedder(group options…)` as of the first use — so
+`every_configuration_meets_spec` speaks about every member of every group. -/
+theorem group_member_is_configured_shedder (g : Group) (enabled : Bool) (key t0 : Nat) (hnew : g.find key = none) :
+    (g.get enabled key t0).2 = newShedder enabled g.opts t0
+    ∧ ∀ en' now', ((g.get enabled key t0).1.get en' key now').2 = newShedder enabled g.opts t0 := by
+  constructor
+  · simp [Group.get, hnew]
+  · intro en' now'
+    simp [Group.get, hnew, find_set_self]
+
 /-! ### non-vacuity -/
 
 -- options: defaults, subsets, repeated options
@@ -370,6 +447,16 @@ example : (httpServe false true { code := 500, again := 503, panics := true }).r
 example : (httpServe false true { code := 200, panics := true }).res = [.pass] := by decide
 example : (httpServe false true { pre := 503 }).res = [.fail] := by decide
 example : (rpcServe true true false).res = [.fail] ∧ (rpcServe true true true).res = [.pass] := by decide
+-- the sampler over a trace; the monitor window
+example : cpuTrace 0 [1000, 1000, 0, 500] = 112 ∧ samplerStepOk 1000 950 = true ∧ samplerStepOk 1000 50 = false
+    ∧ samplerStepOk 0 50 = true ∧ samplerStepOk 0 950 = false := by decide +kernel
+-- every end: a Goexit after a deadline error is still one Pass; an abort after 503 is one Fail
+example : (rpcServe true true End.goexit.abnormal).res = [.pass]
+    ∧ (httpServe false true { code := 503, panics := End.panicError.abnormal }).res = [.fail] := by decide
+-- every configuration: an option list with a repeated option, disabled and enabled
+example : (match newShedder false [.threshold 5, .threshold 7] 1 with | .nop => true | _ => false) = true := by decide
+example : (match newShedder true [.threshold 5, .buckets 4, .threshold 7] 1 with
+    | .adaptive s => decide (s.cpuThreshold = 7 ∧ s.passCounter.size = 4) | _ => false) = true := by decide +kernel
 -- a server: three requests arrive, one ends in a panic after 500, one with 503, the third stays in its handler
 def exServer : List SOp :=
   [.arrive false 0, .arrive true 950, .arrive false 0, .advance 3000000,
